@@ -261,6 +261,16 @@ func init() {
 		}
 		return mkSelect(mkBe(k.Val.Int64(), env.term(n.Args[1])), env.term(n.Args[2]))
 	}
+	// xorbe32(s, x): big-endian value of the 32 bytes  hashout(s)[i] ^ be(32, x)[i]
+	specFuncs["xorbe32"] = func(env *SpecEnv, n *ast.CallExpr) Value {
+		out := hashoutArr(env.term(n.Args[0]))
+		be := mkBe(32, env.term(n.Args[1]))
+		var bs []*Term
+		for i := int64(0); i < 32; i++ {
+			bs = append(bs, env.e.bitOp(token.XOR, mkSelect(out, mkInt64(i)), mkSelect(be, mkInt64(i)), types.Typ[types.Uint8]))
+		}
+		return os2ipTerms(bs)
+	}
 	specFuncs["rdstate"] = func(env *SpecEnv, n *ast.CallExpr) Value {
 		v := env.eval(n.Args[0])
 		id, ok := env.e.objID(v)
